@@ -2,5 +2,6 @@
 #define SIM_PAM_EXT_H
 #include <security/pam_modules.h>
 void pam_vsyslog(const pam_handle_t *pamh, int priority, const char *fmt, va_list args);
+void pam_syslog(const pam_handle_t *pamh, int priority, const char *fmt, ...);
 int pam_prompt(pam_handle_t *pamh, int style, char **response, const char *fmt, ...);
 #endif
